@@ -128,6 +128,7 @@ def st_element(
     sub_symbols: Optional[List[str]] = None,
     short_mantissa: Optional[int] = None,
     distinct: Optional[set] = None,
+    beyond: bool = False,
 ):
     classes = element_classes()
     sym = draw(st.sampled_from(symbols))
@@ -136,7 +137,7 @@ def st_element(
     params: Dict[str, Dict[str, Any]] = {}
     if state != "defaults":
         for k, inf_ in info.items():
-            if draw(st.integers(0, 3)) == 0 and state != "full":
+            if draw(st.integers(0, 3 if state != "full" else 5)) == 0:
                 continue  # leave at class default
             p: Dict[str, Any] = {}
             v = draw(value_strategy(inf_, allow_open=allow_open and sym == "R", short_mantissa=short_mantissa))
@@ -149,6 +150,17 @@ def st_element(
             p["v"] = v
             if state == "full":
                 mode = draw(st.integers(0, 5))
+                if beyond and draw(st.integers(0, 5)) == 0:
+                    # value (and hence its limits) outside the class default box
+                    up = math.isfinite(inf_["hi"]) and inf_["hi"] > 0 and (inf_["lo"] <= 0 or draw(st.booleans()))
+                    if up:
+                        v = inf_["hi"] * draw(_logu(0.3, 3))
+                    elif inf_["lo"] > 0:
+                        v = inf_["lo"] / draw(_logu(0.3, 3))
+                    if short_mantissa is not None:
+                        v = round_sig(v, short_mantissa)
+                    p["v"] = v
+                    mode = 3
                 if math.isfinite(v):
                     span = abs(v) if v != 0 else 1.0
                     f1 = draw(_logu(0.01, 3))
@@ -167,6 +179,10 @@ def st_element(
                     if not (lo_eff < hi_eff and lo_eff <= v <= hi_eff):
                         p.pop("lo", None)
                         p.pop("hi", None)
+                    lo_eff = p.get("lo", inf_["lo"])
+                    hi_eff = p.get("hi", inf_["hi"])
+                    if not (lo_eff <= p["v"] <= hi_eff):  # precondition of every user: values inside their limits
+                        p["v"] = min(max(p["v"], lo_eff), hi_eff)
                 if draw(st.integers(0, 2)) == 0:
                     p["fx"] = draw(st.booleans())
             params[k] = p
@@ -190,10 +206,13 @@ def st_element(
                 subs[key] = "short"
             else:
                 inner_syms = inner + (["Tlm"] if depth < 1 and draw(st.integers(0, 4)) == 0 else [])
-                subs[key] = draw(
+                sub = draw(
                     st_tree(inner_syms, max_leaves=3, state=state, labels=labels, depth=depth + 1, canonical=True,
-                            short_mantissa=short_mantissa, distinct=distinct)
+                            short_mantissa=short_mantissa, distinct=distinct, beyond=beyond)
                 )
+                if sub[0] == "S" and len(sub[1]) == 1 and sub[1][0][0] == "P" and draw(st.booleans()):
+                    sub = sub[1][0]  # a bare parallel connection is what the parser itself stores
+                subs[key] = sub
     return ["E", sym, params, label, subs]
 
 
@@ -211,6 +230,7 @@ def st_tree(
     short_mantissa: Optional[int] = None,
     distinct: Optional[set] = None,
     root: Optional[str] = None,
+    beyond: bool = False,
 ):
     """Random nesting with a drawn number of leaves. canonical=True: strict S/P alternation, no unary series
     below the root (exactly what the parser itself produces)."""
@@ -218,7 +238,7 @@ def st_tree(
 
     def leaf():
         return draw(st_element(symbols, state=state, labels=labels, depth=depth, allow_open=allow_open,
-                               short_mantissa=short_mantissa, distinct=distinct))
+                               short_mantissa=short_mantissa, distinct=distinct, beyond=beyond))
 
     def build(n: int, kind: str, top: bool) -> Any:
         if n == 1 and not top:
@@ -370,7 +390,14 @@ def is_canonical(ast, top: bool = True) -> bool:
     """True when parse(serialize) can reproduce the structure exactly (what the parser produces)."""
     if ast[0] == "E":
         subs = ast[4] or {}
-        return all(is_canonical(v, True) for v in subs.values() if isinstance(v, list))
+        for v in subs.values():
+            if isinstance(v, list):
+                # the parser stores "[(..)]" as the bare parallel connection
+                if v[0] == "S" and len(v[1]) == 1 and v[1][0][0] != "E":
+                    return False
+                if not is_canonical(v, True):
+                    return False
+        return True
     kind, children = ast
     if len(children) == 0:
         return False
